@@ -52,10 +52,13 @@ func ivalues(al ast.ArgumentDefinitionList) string {
 }
 
 // IntroSchema renders a schema as Intro.Schema.sch (types and directives sorted by name, builtins left out).
-func IntroSchema(s *ast.Schema) string {
+func IntroSchema(s *ast.Schema) string { return introSchema(s, false) }
+
+// introSchema with all=true keeps the built-in scalars, the introspection types and the built-in directives
+func introSchema(s *ast.Schema, all bool) string {
 	var names []string
 	for n := range s.Types {
-		if strings.HasPrefix(n, "__") || stdScalars[n] {
+		if !all && (strings.HasPrefix(n, "__") || stdScalars[n]) {
 			continue
 		}
 		names = append(names, n)
@@ -101,7 +104,7 @@ func IntroSchema(s *ast.Schema) string {
 	}
 	var dnames []string
 	for n := range s.Directives {
-		if !builtinDirectives[n] {
+		if all || !builtinDirectives[n] {
 			dnames = append(dnames, n)
 		}
 	}
@@ -126,4 +129,91 @@ func IntroSchema(s *ast.Schema) string {
 		q = CoqStr(s.Query.Name)
 	}
 	return fmt.Sprintf("(mkSch %s %s %s\n      [%s]\n      [%s])", q, rootName(s.Mutation), rootName(s.Subscription), strings.Join(tds, ";\n       "), strings.Join(dds, "; "))
+}
+
+// Schema16 renders a schema as Intro.Exec.sch16: every type and directive, @specifiedBy urls, repeatable directives,
+// the schema description.
+func Schema16(s *ast.Schema) string {
+	var urls, reps []string
+	var names []string
+	for n := range s.Types {
+		names = append(names, n)
+	}
+	sort.Strings(names)
+	for _, n := range names {
+		if d := s.Types[n].Directives.ForName("specifiedBy"); d != nil {
+			if u := d.Arguments.ForName("url"); u != nil {
+				urls = append(urls, "("+CoqStr(n)+", "+CoqStr(u.Value.Raw)+")")
+			}
+		}
+	}
+	var dnames []string
+	for n := range s.Directives {
+		dnames = append(dnames, n)
+	}
+	sort.Strings(dnames)
+	for _, n := range dnames {
+		if s.Directives[n].IsRepeatable {
+			reps = append(reps, CoqStr(n))
+		}
+	}
+	return fmt.Sprintf("(mkS16 %s [%s] [%s] %s)", introSchema(s, true), strings.Join(urls, "; "), strings.Join(reps, "; "), CoqStr(s.Description))
+}
+
+// IntroSelection flattens the selection set of an introspection operation (fragments expanded in place, arguments
+// coerced with the variables) into a list of Intro.Exec.isel. ok=false when a response key occurs twice in one
+// selection set (field merging is outside the model). depth is the nesting depth of the selection.
+func IntroSelection(doc *ast.QueryDocument, ss ast.SelectionSet, vars map[string]interface{}) (term string, depth int, ok bool) {
+	var fields []*ast.Field
+	var collect func(ss ast.SelectionSet)
+	collect = func(ss ast.SelectionSet) {
+		for _, sel := range ss {
+			switch v := sel.(type) {
+			case *ast.Field:
+				fields = append(fields, v)
+			case *ast.InlineFragment:
+				collect(v.SelectionSet)
+			case *ast.FragmentSpread:
+				if fd := doc.Fragments.ForName(v.Name); fd != nil {
+					collect(fd.SelectionSet)
+				}
+			}
+		}
+	}
+	collect(ss)
+	seen := map[string]bool{}
+	ok = true
+	var items []string
+	for _, f := range fields {
+		key := f.Alias
+		if key == "" {
+			key = f.Name
+		}
+		if seen[key] {
+			ok = false
+		}
+		seen[key] = true
+		incl, tname := false, ""
+		if a := f.Arguments.ForName("includeDeprecated"); a != nil {
+			if v, err := a.Value.Value(vars); err == nil {
+				incl, _ = v.(bool)
+			}
+		}
+		if a := f.Arguments.ForName("name"); a != nil {
+			if v, err := a.Value.Value(vars); err == nil {
+				tname, _ = v.(string)
+			}
+		}
+		sub, d, subok := IntroSelection(doc, f.SelectionSet, vars)
+		ok = ok && subok
+		if d+1 > depth {
+			depth = d + 1
+		}
+		b := "false"
+		if incl {
+			b = "true"
+		}
+		items = append(items, fmt.Sprintf("ISel %s %s %s %s %s", CoqStr(key), CoqStr(f.Name), b, CoqStr(tname), sub))
+	}
+	return "[" + strings.Join(items, "; ") + "]", depth, ok
 }
